@@ -244,7 +244,8 @@ class ExprMixin:
                 return v
             t = self.truth(v)
             # keep pure boolean combinations symbolic (no fork) when both sides are boolean tests
-            if not isinstance(t, bool) and self._all_bool_tests(node.values[i + 1:], env) and self._is_boolish(v):
+            if (not isinstance(t, bool) and self._all_bool_tests(node.values[i + 1:], env) and self._is_boolish(v)
+                    and self._eager_safe(node.values[i + 1:], env)):
                 rest = self.eval(ast.BoolOp(op=node.op, values=node.values[i + 1:]) if len(node.values) - i - 1 > 1
                                  else node.values[i + 1], env)
                 rt = self.truth(rest)
@@ -274,6 +275,27 @@ class ExprMixin:
                     return False
             else:
                 return False
+        return True
+
+    def _eager_safe(self, nodes, env):
+        """evaluating these (pure) tests eagerly cannot raise or fork: no optional operand in an ordering test"""
+        for n in nodes:
+            if isinstance(n, ast.Compare):
+                vals = []
+                try:
+                    vals = [self.eval(x, env) for x in [n.left] + n.comparators]
+                except Exception:
+                    return False
+                for op in n.ops:
+                    if isinstance(op, (ast.Lt, ast.LtE, ast.Gt, ast.GtE, ast.In, ast.NotIn)):
+                        if any(v is None or isinstance(v, (SOpt, AnyV)) for v in vals):
+                            return False
+            elif isinstance(n, ast.UnaryOp):
+                if not self._eager_safe([n.operand], env):
+                    return False
+            elif isinstance(n, ast.BoolOp):
+                if not self._eager_safe(n.values, env):
+                    return False
         return True
 
     def _pure(self, n):
@@ -646,6 +668,13 @@ class ExprMixin:
 
     def _slot_read(self, m, n, subscript, default, node, pure=False):
         v = m.slots.get(n, UNDEF)
+        if isinstance(v, SOpt) and not subscript and default is not None:
+            # dict.get(key, default): an absent key yields the default
+            if pure:
+                raise Unsupported("get with default over optional slot")
+            if self.path.branch(v.none):
+                return default
+            return v.val
         if v is UNDEF:
             if subscript:
                 if m.defaultdict:
@@ -724,6 +753,14 @@ class ExprMixin:
     # ------------------------------------------------------------------ getattr
     def getattr_value(self, obj, attr, node=None, default=UNDEF):
         obj = self.force(obj)
+        if isinstance(obj, tuple) and len(obj) == 2 and obj[0] == "typeof":
+            if attr == "__name__":
+                inner = obj[1]
+                cache = self.path.ghost.setdefault("typename", {})
+                if id(inner) not in cache:
+                    cache[id(inner)] = Sym(z3.String(fresh_name("typename")), "str")
+                return cache[id(inner)]
+            raise Unsupported(f"type(...).{attr}")
         if obj is None:
             if default is not UNDEF:
                 return default
